@@ -124,7 +124,7 @@ def strat(draw, tier="quick"):
     macro_refit = st.tuples(do_fit, st.one_of(read_min, st.just({"op": "read_key", "obs": "error_band()"})), st.one_of(fix_here, fix_here, m_source, m_toggle, m_con, m_par),
                             do_fit).map(lambda t: [t[0], t[1], t[2], t[3], t[1]])
     ops = st.lists(st.one_of(op, op, op, op, op, op, macro_read_mutate, macro_refit), min_size=2, max_size=14 if tier == "quick" else 40).map(lambda ll: [o for l in ll for o in l])
-    return {"spec": spec, "ops": draw(ops)}
+    return {"spec": spec, "ops": draw(ops), "reuse_buffers": draw(st.booleans())}
 
 
 def _values_equal(tag, a, b, factor=1.0):
@@ -202,6 +202,7 @@ def run(case):
         H = fs.build(cfg.as_spec())
     obs_all = observables(H)
     labels = {spec["type"], spec["minimizer"], spec.get("dea", "nonlinear")}
+    pbuf = [0.0] * len(names)
     read_then = {}  # observable -> set of mutator classes applied after it was read
     nontrivial = False
     skipped_pd = 0
@@ -346,7 +347,12 @@ def run(case):
             new = {nm: (cfg.values[nm] if nm in cfg.spec["fixed"] else cfg.values[nm] * (1 + op["d"][j % 4]) + 0.01 * op["d"][j % 4]) for j, nm in enumerate(names)}
             new = _inside_limits(new, cfg)
             with guard("set_all_parameter_values"):
-                H.set_all_parameter_values([new[nm] for nm in names])
+                if case.get("reuse_buffers"):
+                    pbuf[:] = [new[nm] for nm in names]  # one list object, updated in place and passed again (a scan loop)
+                    H.set_all_parameter_values(pbuf)
+                    labels.add("parameter_buffer_reused_in_place")
+                else:
+                    H.set_all_parameter_values([new[nm] for nm in names])
             cfg.values.update(new)
             cfg.fitted = False
             mutated("values")
